@@ -247,7 +247,7 @@ def _c19_batch(tier, seed, n, bud, sweeps=False):
         # k-th pre-emption point, by a complete op B -- every k (thorough) or every stride-th k (quick)
         info["sweeps"] = {}
         for gran, stride, coarse in (("line", 1 if tier == "thorough" else 3, 1 if tier == "thorough" else 4),
-                                     ("instruction", 1 if tier == "thorough" else 6, 1 if tier == "thorough" else 8)):
+                                     ("instruction", 1 if tier == "thorough" else 6, 4 if tier == "thorough" else 8)):
             params = {"seed": seed, "mode": "sweep", "granularity": gran, "stride": stride, "offset": seed, "coarse": coarse}
             eng = es.make_engine(**params)
             size = eng.sweep_size()
@@ -262,7 +262,8 @@ def _c19_batch(tier, seed, n, bud, sweeps=False):
                                     "pre_emption_points_total": sum(p[4] for p in plan),
                                     "stride_inside_construction": stride, "stride_inside_accessors": stride * coarse,
                                     "cases": size, "executed": sw.evaluations,
-                                    "exhaustive": stride == 1 and coarse == 1 and sw.evaluations == size}
+                                    "exhaustive": stride == 1 and coarse == 1 and sw.evaluations == size,
+                                    "exhaustive_inside_constructions": stride == 1 and sw.evaluations == size}
             agg.merge(sw)
     rep = core.report("C19", engine, agg, shrink_budget=40.0, max_shrunk=5)
     if engine.room is not None:
@@ -277,7 +278,7 @@ def check_C19(tier, t0):
 
     seed = core.verif_seed()
     n = scale(2000 if tier == "quick" else 30000)  # per hash seed
-    bud = budget(200 if tier == "quick" else 1700)
+    bud = budget(200 if tier == "quick" else 1200)
     partial = os.environ.get("CVSSSIM_C19_PARTIAL")
     if partial:
         # child mode: one hash seed (the one this interpreter was started with)
